@@ -271,6 +271,13 @@ func (p *policy) UpdateResources(container cache.Container) error {
 	poolHint := grant.GetCPUNode().Name()
 	err := p.allocateResources(container, poolHint)
 	if err != nil {
+		// The runtime does not apply an update we refuse: the container keeps
+		// running with its old resources, so give it back the allocation it had.
+		restore := map[string]Grant{container.GetID(): grant}
+		if rerr := p.reinstateGrants(restore); rerr != nil {
+			log.Error("failed to restore previous allocation of %s: %v",
+				container.PrettyName(), rerr)
+		}
 		return err
 	}
 
